@@ -156,7 +156,15 @@ def rule_a(ctx, R, tb):
             else:
                 unknown.append("f64 comparison against a non-zero constant at %s" % pat.where(tb.blocks[sb]["stmts"][-1] if tb.blocks[sb]["stmts"] else t))
                 continue
-            good = op in ("Le", "Lt") and tgt == te
+            # classes of the tested value that take the edge towards Err: negative values must, positive ones must not
+            # (`<= 0`, `< 0`, `!(x > 0)`, `!(x >= 0)` all qualify: values within 1e-9 of zero are outside the statement's iff)
+            from ..f64facts import _cond_classes, NEG, POS, PINF
+            cc = _cond_classes(v, c, x)
+            good = False
+            if cc is not None:
+                err_set = cc[0] if tgt == te else cc[1]
+                pass_set = cc[1] if tgt == te else cc[0]
+                good = NEG in err_set and NEG not in pass_set and POS not in err_set and PINF not in err_set
             kinds["test"] = (sb, x, op, good)
             test = (sb, x, op, good)
         elif c and c[0] == "call" and idroles.is_role(ctx, c[1], "is_empty"):
@@ -267,6 +275,24 @@ def rule_c(ctx, R, bs):
     common.hash_order_isolation(ctx, R, "C05-c", [bs])
 
 
+def rule_e(ctx, R, bs, tb):
+    """`error iff divergent`: the divergence test of the table builder (C05-a) must be the ONLY way to an Err."""
+    ctx.rule("C05-e", "Err census: among all bodies reachable from build_sampler the only construction of an Err is the table builder's "
+                      "divergence Err (C05-a); build_sampler itself and every other callee construct none")
+    order, _ext = reachable_bodies(ctx, R, [bs])
+    n_tb = 0
+    for b in order:
+        for bi, si, st in pat.result_ctor_sites(b, "Err"):
+            if b is tb:
+                n_tb += 1
+                continue
+            ctx.ob("C05-e", "no Err besides the divergence test", False, b.path, "extra-err-site", where=pat.where(st),
+                   detail="an Err is constructed in %s: build_sampler can now fail for a graph whose proper subsets are all convergent "
+                          "(the statement allows an error only for a divergent subset)" % norm_path(b.path))
+    ctx.ob("C05-e", "Err constructions on the build path: %d in the table builder, none elsewhere (%d bodies)" % (n_tb, len(order)),
+           n_tb == 1 and len(order) >= 15, bs.path, "err-census-floor")
+
+
 def run(ctx):
     R = ctx.roles
     try:
@@ -276,6 +302,7 @@ def run(ctx):
     rule_a(ctx, R, site[2])
     rule_b(ctx, R, bs, site)
     rule_c(ctx, R, bs)
+    rule_e(ctx, R, bs, site[2])
     # d: the value the divergence test looks at is the generalised degree of divergence of the statement
     ctx.rule("C05-d", "the tested/stored value is [i≠∅]·(Σ_{e∈i} w_e − ℓ(i)·D/2 − [spanning(i)]·dod) + [i=∅]·1 with spanning(·) the conjunction of the statement "
                       "(kernel engine; graph routines abstracted)")
